@@ -307,7 +307,7 @@ func namesStr(ns []string) string {
 }
 
 func randVars(c *Ctx) map[string]string {
-	vals := []string{"", "1", "Alex", "a/b", "\"q\"\n", "\\t\t", "é世", "x", " ", "{{a}}"}
+	vals := []string{"", "1", "Alex", "a/b", "\"q\"\n", "\\t\t", "é世", "x", " ", "{{a}}", "a\tb", "\t", "\b", "\f", "\r", "\n", "/", "\\", "\""}
 	m := map[string]string{}
 	for _, n := range tplNames {
 		switch c.Rng.Intn(5) {
